@@ -191,34 +191,40 @@ func valueClasses(ts *gen.TypeSpec, vals map[string]any) (labels []string, nonze
 	return labels, nonzero, special
 }
 
+// scribbleValue overwrites, in place, what a value holds behind a pointer or
+// in a slice (what a caller is free to do with a value the library gave it).
+func scribbleValue(val any) {
+	v := reflect.ValueOf(val)
+
+	switch {
+	case v.Kind() == reflect.Ptr && !v.IsNil():
+		if e := v.Elem(); e.Kind() == reflect.Slice {
+			for i := 0; i < e.Len(); i++ {
+				e.Index(i).Set(reflect.Zero(e.Type().Elem()))
+			}
+		} else if e.CanSet() {
+			switch e.Kind() {
+			case reflect.Bool:
+				e.SetBool(!e.Bool())
+			case reflect.String:
+				e.SetString("scribbled")
+			default:
+				e.Set(reflect.Zero(e.Type()))
+			}
+		}
+	case v.Kind() == reflect.Slice:
+		for i := 0; i < v.Len(); i++ {
+			v.Index(i).Set(reflect.Zero(v.Type().Elem()))
+		}
+	}
+}
+
 // scribble overwrites, in place, every value of the resource that is held
 // behind a pointer or in a slice.
 func scribble(ts *gen.TypeSpec, res jsonapi.Resource) {
 	oracle.Try(func() {
 		for _, a := range ts.Attrs {
-			v := reflect.ValueOf(res.Get(a.Name))
-
-			switch {
-			case v.Kind() == reflect.Ptr && !v.IsNil():
-				if e := v.Elem(); e.Kind() == reflect.Slice {
-					for i := 0; i < e.Len(); i++ {
-						e.Index(i).Set(reflect.Zero(e.Type().Elem()))
-					}
-				} else if e.CanSet() {
-					switch e.Kind() {
-					case reflect.Bool:
-						e.SetBool(!e.Bool())
-					case reflect.String:
-						e.SetString("scribbled")
-					default:
-						e.Set(reflect.Zero(e.Type()))
-					}
-				}
-			case v.Kind() == reflect.Slice:
-				for i := 0; i < v.Len(); i++ {
-					v.Index(i).Set(reflect.Zero(v.Type().Elem()))
-				}
-			}
+			scribbleValue(res.Get(a.Name))
 		}
 
 		for _, r := range ts.Rels {
